@@ -5,6 +5,7 @@ token) before and after every command; the oracle checks, from the statement of 
 
   new_uids_exceed_every_earlier_uid   a UID that appears exceeds every UID ever seen in that mailbox (also expunged ones)
   a_uid_never_denotes_two_messages    the content behind (mailbox, UIDVALIDITY, UID) never changes
+  an_expunged_uid_never_comes_back    a UID that was seen and then seen missing does not exist again later
   uidnext_is_truthful                 STATUS UIDNEXT > every existing UID, and <= the next UID actually assigned
   appenduid_is_what_uid_fetch_finds   [APPENDUID v u]: v is the mailbox's UIDVALIDITY, UID FETCH u finds the appended message
   copyuid_pairs_source_to_destination [COPYUID v S D]: S and D expand to equally many UIDs; for the i-th pair the
@@ -72,13 +73,19 @@ class Oracle:
         self.high = {}      # (box, validity) -> highest uid ever seen
         self.ever = {}      # (box, validity, uid) -> token
         self.reported_next = {}   # (box, validity) -> last UIDNEXT reported and not yet consumed
+        self.gone = set()         # (box, validity, uid) that were seen and then seen missing
 
     def observe(self, d, errors, where, fail):
         for box, info in d.items():
             key = (box, info['validity'])
             old_high = self.high.get(key, 0)
+            for k in [k for k in self.ever if k[:2] == key and k[2] not in info['msgs']]:
+                self.gone.add(k)
             for uid, tok in sorted(info['msgs'].items()):
                 k = key + (uid,)
+                if k in self.gone:
+                    fail('an_expunged_uid_never_comes_back',
+                         f'{where}: {box!r} UID {uid} had disappeared (expunged / moved away) and exists again')
                 if k in self.ever:
                     if self.ever[k] != tok:
                         fail('a_uid_never_denotes_two_messages',
@@ -233,6 +240,13 @@ def programs(tier, seed):
         progs.append((('expunge', 'a', '*'),) + tuple(tail))
         progs.append((('expunge', 'a', '3:4'), ('noop', 'b')) + tuple(tail) + (('append', 'b', BOXES[0]),))
         progs.append((('move', 'a', False, '*', BOXES[1]),) + tuple(tail))
+    # there and back again: a message moved away and moved (or copied) back must come back under a NEW uid only
+    for uidform in (False, True):
+        for back in ('move', 'copy'):
+            progs.append((('move', 'a', uidform, '1', BOXES[1]), ('select', 'a', BOXES[1]), (back, 'a', uidform, '2', BOXES[0]),
+                          ('select', 'a', BOXES[0]), ('noop', 'b')))
+            progs.append((('move', 'a', uidform, '2:3', BOXES[1]), ('select', 'b', BOXES[1]), (back, 'b', False, '1:*', BOXES[0]),
+                          ('move', 'a', False, '1:*', BOXES[1])))
     rnd = random.Random(seed)
     ops = []
     for who in 'ab':
